@@ -30,8 +30,9 @@ VARIABLES
   lastScore,  \* last reported score of this search
   doneScore,  \* last reported score of the most recently finished search
   nsearch,    \* number of go commands so far in this session
+  expect,     \* replies the GUI-side thread still owes, in order (uci -> id, id, uciok; isready -> readyok; register -> 2 x registration)
   bad, nbad, ntr
-vars == <<l, sess, mode, gamePos, go, lastDepth, lastNodes, lastTime, lastPV, lastScore, doneScore, nsearch, bad, nbad, ntr>>
+vars == <<l, sess, mode, gamePos, go, lastDepth, lastNodes, lastTime, lastPV, lastScore, doneScore, nsearch, expect, bad, nbad, ntr>>
 
 Ev == Rec[l]
 StartPos == PosOfFen("rnbqkbnr/pppppppp/8/8/8/8/PPPPPPPP/RNBQKBNR w KQkq - 0 1")
@@ -59,7 +60,7 @@ Start ==
   /\ Ev.ev = "start"
   /\ sess' = Ev.c /\ mode' = "idle" /\ gamePos' = StartPos /\ go' = NoGo
   /\ lastDepth' = "none" /\ lastNodes' = "none" /\ lastTime' = "none" /\ lastPV' = <<>>
-  /\ lastScore' = NoScore /\ doneScore' = NoScore /\ nsearch' = 0
+  /\ lastScore' = NoScore /\ doneScore' = NoScore /\ nsearch' = 0 /\ expect' = <<>>
   /\ UNCHANGED <<ntr>> /\ NoRecord
 
 InPosition ==
@@ -68,7 +69,7 @@ InPosition ==
          r == PlayLine(pf.pos, Ev.moves, 1)
      IN gamePos' = IF pf.ok /\ r.ok THEN r.pos ELSE gamePos      \* a rejected move list leaves the position as it was
   /\ Record(<< <<mode # "searching", "C07", "harness sent position during a search (ill-behaved GUI)", "idle">> >>)
-  /\ UNCHANGED <<sess, mode, go, lastDepth, lastNodes, lastTime, lastPV, lastScore, doneScore, nsearch, ntr>>
+  /\ UNCHANGED <<sess, mode, go, lastDepth, lastNodes, lastTime, lastPV, lastScore, doneScore, nsearch, expect, ntr>>
 
 InGo ==
   /\ Ev.ev = "in" /\ Ev.cmd = "go"
@@ -77,11 +78,16 @@ InGo ==
   /\ lastDepth' = "none" /\ lastNodes' = "none" /\ lastTime' = "none" /\ lastPV' = <<>> /\ lastScore' = NoScore
   /\ nsearch' = nsearch + 1
   /\ Record(<< <<mode # "searching", "C07", "harness sent go during a search (ill-behaved GUI)", "idle">> >>)
-  /\ UNCHANGED <<sess, gamePos, doneScore, ntr>>
+  /\ UNCHANGED <<sess, gamePos, doneScore, expect, ntr>>
 
+Owed(cmd) == CASE cmd = "uci" -> <<"id", "id", "uciok">>
+                 [] cmd = "isready" -> <<"readyok">>
+                 [] cmd = "register" -> <<"registration", "registration">>
+                 [] OTHER -> <<>>
 InOther ==
-  /\ Ev.ev = "in" /\ Ev.cmd \in {"stop", "isready", "ucinewgame", "debug", "quit", "uci", "ponderhit"}
+  /\ Ev.ev = "in" /\ Ev.cmd \in {"stop", "isready", "ucinewgame", "debug", "quit", "uci", "ponderhit", "register", "registerlater"}
   /\ go' = IF Ev.cmd \in {"stop", "quit"} /\ mode = "searching" THEN [go EXCEPT !.stopped = TRUE] ELSE go
+  /\ expect' = expect \o Owed(Ev.cmd)
   /\ NoRecord
   /\ UNCHANGED <<sess, mode, gamePos, lastDepth, lastNodes, lastTime, lastPV, lastScore, doneScore, nsearch, ntr>>
 
@@ -94,7 +100,7 @@ Keep(prev, cur) == IF cur = "none" THEN prev ELSE cur
 OutMalformed ==
   /\ Ev.ev = "out" /\ ~Msg.ok
   /\ Record(<< <<FALSE, "C16", "not a valid engine-to-GUI line: " \o Ev.raw, "UCI syntax">> >>)
-  /\ UNCHANGED <<sess, mode, gamePos, go, lastDepth, lastNodes, lastTime, lastPV, lastScore, doneScore, nsearch, ntr>>
+  /\ UNCHANGED <<sess, mode, gamePos, go, lastDepth, lastNodes, lastTime, lastPV, lastScore, doneScore, nsearch, expect, ntr>>
 
 OutInfo ==
   /\ Ev.ev = "out" /\ Msg.ok /\ Msg.kind = "info"
@@ -113,7 +119,7 @@ OutInfo ==
         /\ lastTime' = Keep(lastTime, m.num["time"])
         /\ lastPV' = IF m.haspv THEN m.pv ELSE lastPV
         /\ lastScore' = IF m.score.kind # "none" THEN m.score ELSE lastScore
-  /\ UNCHANGED <<sess, mode, gamePos, go, doneScore, nsearch, ntr>>
+  /\ UNCHANGED <<sess, mode, gamePos, go, doneScore, nsearch, expect, ntr>>
 
 OutBestMove ==
   /\ Ev.ev = "out" /\ Msg.ok /\ Msg.kind = "bestmove"
@@ -135,11 +141,15 @@ OutBestMove ==
         /\ ntr' = IF go.limited \/ go.stopped \/ go.searchmoves # <<>> \/ nsearch > 1 THEN ntr \cup {l} ELSE ntr
   /\ mode' = IF mode = "dead" THEN "dead" ELSE "idle"
   /\ doneScore' = lastScore
-  /\ UNCHANGED <<sess, gamePos, go, lastDepth, lastNodes, lastTime, lastPV, lastScore, nsearch>>
+  /\ UNCHANGED <<sess, gamePos, go, lastDepth, lastNodes, lastTime, lastPV, lastScore, nsearch, expect>>
 
+\* replies of the GUI-side thread (beyond the listed properties: tagged X-protocol): exactly the owed ones, in order
 OutOther ==
   /\ Ev.ev = "out" /\ Msg.ok /\ Msg.kind \notin {"info", "bestmove"}
-  /\ NoRecord
+  /\ LET k == Msg.kind
+         ok == expect # <<>> /\ Head(expect) = k
+     IN /\ Record(<< <<ok, "X-protocol", "unsolicited or out-of-order reply: " \o k, ToString(expect)>> >>)
+        /\ expect' = IF ok THEN Tail(expect) ELSE expect
   /\ UNCHANGED <<sess, mode, gamePos, go, lastDepth, lastNodes, lastTime, lastPV, lastScore, doneScore, nsearch, ntr>>
 
 \* hook H5(b): the position the idle search thread holds
@@ -147,26 +157,27 @@ ProbeFen ==
   /\ Ev.ev = "probe" /\ Ev.what = "fen"
   /\ Record(<< <<Ev.fen = RenderFen(gamePos), "C09", "the engine's position after the search differs from the position it was given: " \o Ev.fen,
                  RenderFen(gamePos)>> >>)
-  /\ UNCHANGED <<sess, mode, gamePos, go, lastDepth, lastNodes, lastTime, lastPV, lastScore, doneScore, nsearch, ntr>>
+  /\ UNCHANGED <<sess, mode, gamePos, go, lastDepth, lastNodes, lastTime, lastPV, lastScore, doneScore, nsearch, expect, ntr>>
 
 \* depth-1 score of a fresh engine given the same position: must equal the score of the search that just ended
 ProbeFresh ==
   /\ Ev.ev = "probe" /\ Ev.what = "fresh"
   /\ Record(<< <<Ev.score.kind = doneScore.kind /\ Ev.score.v = doneScore.v, "C09",
                  "depth-1 score after an interrupted search differs from a fresh engine's: " \o ToString(doneScore), ToString(Ev.score)>> >>)
-  /\ UNCHANGED <<sess, mode, gamePos, go, lastDepth, lastNodes, lastTime, lastPV, lastScore, doneScore, nsearch, ntr>>
+  /\ UNCHANGED <<sess, mode, gamePos, go, lastDepth, lastNodes, lastTime, lastPV, lastScore, doneScore, nsearch, expect, ntr>>
 
 \* the watchdog expired, or the engine process / search thread died
 Timeout ==
   /\ Ev.ev = "timeout"
   /\ Record(<< <<FALSE, "C07", "no bestmove: " \o Ev.why, "exactly one bestmove per go">> >>)
   /\ mode' = "dead"
-  /\ UNCHANGED <<sess, gamePos, go, lastDepth, lastNodes, lastTime, lastPV, lastScore, doneScore, nsearch, ntr>>
+  /\ UNCHANGED <<sess, gamePos, go, lastDepth, lastNodes, lastTime, lastPV, lastScore, doneScore, nsearch, expect, ntr>>
 
 End ==
   /\ Ev.ev = "end"
-  /\ Record(<< <<mode # "searching", "C07", "session ended with an unanswered go", "bestmove">> >>)
-  /\ UNCHANGED <<sess, mode, gamePos, go, lastDepth, lastNodes, lastTime, lastPV, lastScore, doneScore, nsearch, ntr>>
+  /\ Record(<< <<mode # "searching", "C07", "session ended with an unanswered go", "bestmove">>,
+               <<expect = <<>> \/ mode = "dead", "X-protocol", "session ended with replies still owed: " \o ToString(expect), "<<>>">> >>)
+  /\ UNCHANGED <<sess, mode, gamePos, go, lastDepth, lastNodes, lastTime, lastPV, lastScore, doneScore, nsearch, expect, ntr>>
 
 Next ==
   /\ l <= Len(Rec)
@@ -177,7 +188,7 @@ Next ==
 Init ==
   /\ l = 1 /\ sess = 0 /\ mode = "idle" /\ gamePos = StartPos /\ go = NoGo
   /\ lastDepth = "none" /\ lastNodes = "none" /\ lastTime = "none" /\ lastPV = <<>>
-  /\ lastScore = NoScore /\ doneScore = NoScore /\ nsearch = 0
+  /\ lastScore = NoScore /\ doneScore = NoScore /\ nsearch = 0 /\ expect = <<>>
   /\ bad = <<>> /\ nbad = 0 /\ ntr = {}
 Spec == Init /\ [][Next]_vars
 
